@@ -113,7 +113,7 @@ func c14StartServerEnv(e *Env, flags []string, env []string) (*c14Server, error)
 		if ok {
 			return s, nil
 		}
-		lastErr = fmt.Errorf("thruserv did not become ready on port %d (attempt %d)", port, attempt)
+		lastErr = fmt.Errorf("thruserv did not become ready on port %d (attempt %d; alive=%v; log tail %q)", port, attempt, s.Alive(), s.LogTail(3))
 		s.Stop()
 	}
 	return nil, lastErr
